@@ -50,6 +50,42 @@ let run_op ctx (toks : string list) =
           spec ctx "C13_only_ttl" ok "";
           ignore ir
       | _ -> ())
+  | "vttl" :: t0 :: t1 :: vb :: tr :: rest ->
+      (* the statement of C13_vendor_ttl evaluated on the implementation's output: the attribute list is
+         pre ++ vsa vb (subs1 ++ (t1, v) :: subs2) tr :: post with the spec's own vsa; when the theorem's
+         hypotheses hold the implementation must answer (fst (decttl v), the same list with v decremented) *)
+      let t0n = n_of_int (int_of_string t0) and t1n = n_of_int (int_of_string t1) in
+      let rec split sect (p, s, q) = function
+        | [] -> (List.rev p, List.rev s, List.rev q)
+        | "P" :: r -> split 1 (p, s, q) r
+        | "S" :: r -> split 2 (p, s, q) r
+        | "Q" :: r -> split 3 (p, s, q) r
+        | x :: r -> split sect (match sect with 1 -> (x :: p, s, q) | 2 -> (p, x :: s, q) | _ -> (p, s, x :: q)) r in
+      let p, s, q = split 0 ([], [], []) rest in
+      let pre = tlvs_of_tokens p and post = tlvs_of_tokens q in
+      let subs = List.map (fun a -> (a.tlv_t, a.tlv_v)) (tlvs_of_tokens s) in
+      let vbb = bytes_of_hex vb and trb = bytes_of_hex tr in
+      let l = pre @ [ vsa vbb subs trb ] @ post in
+      let r, l' = checkttl t0n t1n l in
+      pr "obs %d checkttl %d%s\n" ctx.opidx (int_of_n r) (str_of_tlvs l');
+      (match impl_obs ctx with
+      | Some ("checkttl" :: ir :: iattrs) ->
+          let il = tlvs_of_tokens iattrs in
+          let rec cut acc = function
+            | [] -> None
+            | (t, v) :: r2 when t = t1n -> Some (List.rev acc, v, r2)
+            | x :: r2 -> cut (x :: acc) r2 in
+          let hyps = List.length vbb = 4 && be_value vbb = t0n && List.length trb <= 1
+                     && List.for_all sub_ok subs && List.for_all (other_vendor t0n) pre && t1n <> n_of_int 256 in
+          if hyps then begin
+            match cut [] subs with
+            | Some (s1, v, s2) ->
+                let r', v' = decttl v in
+                spec ctx "C13_vendor_ttl"
+                  (int_of_string ir = int_of_n r' && il = pre @ [ vsa vbb (s1 @ ((t1n, v') :: s2)) trb ] @ post) (hex_of_bytes v)
+            | None -> ()
+          end
+      | _ -> ())
   | "addttl" :: t0 :: t1 :: a :: attrs ->
       let l = tlvs_of_tokens attrs in
       let l' = addttlattr (n_of_int (int_of_string t0)) (n_of_int (int_of_string t1)) (n_of_int (int_of_string a)) l in
